@@ -1,5 +1,5 @@
 """C13 — parse failures name the right error, file and line and return nothing partial."""
-import vlib, grammar, gens, gramlib, laylib
+import vlib, grammar, gens, gramlib, laylib, trees
 from vlib import enc
 from checklib import Scenario
 
@@ -60,6 +60,18 @@ def gen(rng, tier):
         if st["hist"]: cmds += [st["hist"], "errloc"]
         k = len(tree) + len(st["pre"])
         out.append(Scenario(cmds, [False] * k + [True] * (len(cmds) - k), tags=("layered",)))
+    # a missing file gives file-not-found however it is missing: no such name, a path component that is a regular file,
+    # a component longer than NAME_MAX, a dangling link; also as one layer of a layered read whose other layer is fine
+    for _ in range(20 if tier == "quick" else 400):
+        long = b"n" * 300
+        miss = rng.choice([b"/mf/none.conf", b"/mf/plain.conf/extra.conf", b"/mf/" + long + b".conf", b"/mf/dangling.conf", b"/mf/sub/deeper/x.conf", b"mf/none.conf"])
+        cmds = [trees.fsdir(b"/mf"), trees.fsfile(b"/mf/plain.conf", b"k=1\n"), trees.fslink(b"/mf/dangling.conf", b"/mf/gone"),
+                trees.fsdir(b"/good"), trees.fsfile(b"/good/app.conf", b"k=good\n"),
+                "readfile 0 %s x3d x23" % enc(miss), "dump 0",
+                # one layer directory is a regular file / does not exist at all, the other holds the configuration
+                "readdirs 1 %s %s %s x636f6e66 x3d x23" % (enc(b"/good"), enc(rng.choice([b"/mf/plain.conf", b"/mf/none", b"/mf/" + long])), enc(b"app")), "dump 1",
+                "readdirs 2 %s %s %s x636f6e66 x3d x23" % (enc(rng.choice([b"/mf/plain.conf", b"/mf/none"])), enc(b"/mf/none2"), enc(b"app")), "dump 2"]
+        out.append(Scenario(cmds, [False] * 5 + [True] * 6, tags=("missing",)))
     out.append(Scenario(["errstring %d" % i for i in range(0, 27)] + ["errstring 1000"], tags=("messages",)))
     return out
 
